@@ -55,7 +55,7 @@ def worker(args):
         out["contract"] = contract_data(c)
         out["kind"] = c.kind
         I = Interp(L, cs)
-        I.spec_builtins = {"fold", "implies", "old", "pre", "events", "same_object", "final", "byte_at", "forall", "maybe", "has_own", "is_xml", "md5", "sha256", "aes_ecb_enc", "aes_ecb_dec", "aes_cbc_enc", "aes_cbc_dec", "pkcs7", "xor_bytes"}
+        I.spec_builtins = {"fold", "implies", "old", "pre", "events", "same_object", "final", "byte_at", "forall", "maybe", "has_own", "pending_getters", "is_xml", "md5", "sha256", "aes_ecb_enc", "aes_ecb_dec", "aes_cbc_enc", "aes_cbc_dec", "pkcs7", "xor_bytes"}
         ex = Explorer()
         import signal
 
@@ -87,7 +87,7 @@ def worker(args):
             out["outcomes"][oc] = out["outcomes"].get(oc, 0) + 1
             asm |= p.assumptions
             # reachability cover of every completed path (vacuity guard)
-            if oc != "cut":
+            if oc not in ("cut", "unsupported"):
                 s = z3.Solver()
                 s.set("timeout", 5000)
                 for t in p.pc:
@@ -122,6 +122,11 @@ def worker(args):
                 elif want_smt2:
                     rec["smt2"] = ob.smt2
                 out["obligations"].append(rec)
+        if ex.unsupported:
+            if any(o["status"] == "refuted" for o in out["obligations"]):
+                out["partial"] = f"some paths are outside the supported subset ({ex.unsupported[0]}); the obligations refuted on the other paths stand"
+            else:
+                out["undecided"] = f"outside the supported subset: {ex.unsupported[0]}"
         out["assumptions"] = sorted(asm)
         out["callees"] = sorted(cs.used)
         out["stats"] = dict(ex.stats)
@@ -295,6 +300,8 @@ def main(argv=None):
         if r["undecided"]:
             undecided.append(f"{r['target']}: {r['undecided']}")
             continue
+        if r.get("partial"):
+            lines.append(f"NOTE {r['target']}: {r['partial']}")
         funcs.append({"target": r["target"], "paths": r["paths"], "outcomes": r["outcomes"], "obligations": len(r["obligations"]),
                       "secs": r["secs"], "covers_sat": r["covers_sat"]})
         asm |= set(r["assumptions"])
